@@ -38,6 +38,7 @@ type Tape struct {
 	Etype   int     `json:"etype,omitempty"`
 	Shape   string  `json:"shape"`
 	AltMs   int64   `json:"alt_skew_ms,omitempty"` // clock skew of a second settings object in the same process (0 = none)
+	AltKt   string  `json:"alt_keytab_principal,omitempty"` // path=verify: the second settings object overrides the keytab principal with HTTP/<this service>
 	Tasks   []TaskT `json:"tasks"`
 }
 
@@ -210,7 +211,10 @@ func Gen(caseID, tier string) (json.RawMessage, error) {
 	// not significant for identity: the name-type under which the service name is presented, and
 	// which of the process's settings objects (sharing the one replay cache) verifies
 	if r.Chance(1, 3) {
-		tp.AltMs = tp.SkewS * int64(r.PickInt(500, 500, 2000))
+		tp.AltMs = tp.SkewS * int64(r.PickInt(500, 500, 2000, 1000))
+		if tp.Path == "verify" && r.Chance(1, 2) {
+			tp.AltKt = r.Pick(services...)
+		}
 	}
 	for ti := range tp.Tasks {
 		for oi := range tp.Tasks[ti].Ops {
